@@ -17,7 +17,8 @@ RULE = ("(TLE, time) pairs from the repo's test TLEs and the near-earth generato
         "array; observers over the globe incl. poles, the date line and altitudes 0-40000 km; correspondence: lon/lat/alt "
         "and the iteration count (model vs Orbital.get_lonlatalt and geoloc.get_lonlatalt), observer position/velocity at "
         "1e-11; oracle: ranges, WGS-84 round trip 2e-6 |r| against an independent geodesy + IAU-82 GMST, observer = inverse, "
-        "velocity = omega x r, module = method exactly, local time; distinct = (tle, time) or observer")
+        "velocity = omega x r (scalar observers and observer arrays of dtype float64/float32/int64, 0-d, 1-d, 2-d), module = "
+        "method exactly (also for batches in which some positions are NaN), local time; distinct = (tle, time) or observer")
 ASSUMPTIONS = ["convergence of the latitude fixed-point iteration (contraction factor ~0.007) and the float round trip are measured",
                "the code normalises by 6378.135 km and rescales the altitude by 6378.137 km: relative mismatch 3.1e-7, inside the 2e-6 tolerance"]
 TRUSTED = ["model PV.Model.Look (wrapLon, latStep/latLoop, lonLatAlt) and PV.Model.Astro.observerPosition", "spec PV.Spec.Topo"]
@@ -147,6 +148,98 @@ def oracle(ctx):
         if not np.linalg.norm(v - np.cross(w, p)) <= 1e-12 * (1 + np.linalg.norm(v)):
             ctx.violation("observer_velocity", case, list(v), list(np.cross(w, p)), site="astronomy.observer_position")
     ctx.note("worst WGS-84 round-trip relative error = %.3g" % worst)
+    _oracle_observer_arrays(ctx)
+    _oracle_batches(ctx)
+
+
+def _obs_array_case(kind, lons, lats, alts, tiso):
+    return {"kind": kind, "lons": [float(x) for x in lons], "lats": [float(x) for x in lats], "alts": [float(x) for x in alts], "utc": tiso}
+
+
+def _check_observer_array(ctx, kind, lons, lats, alts, t):
+    """observer_position on array-valued observers (any dtype) = the inverse WGS-84 conversion per element, velocity = w x r."""
+    from pyorbital import astronomy
+    mk = {"f64": lambda x: np.array(x, dtype=np.float64), "f32": lambda x: np.array(x, dtype=np.float32),
+          "i64": lambda x: np.array(x, dtype=np.int64), "f64_2d": lambda x: np.array(x, dtype=np.float64).reshape(2, -1),
+          "0d": lambda x: np.array(x[0], dtype=np.float64)}[kind]
+    a_lon, a_lat, a_alt = mk(lons), mk(lats), mk(alts)
+    (p, v) = astronomy.observer_position(t, a_lon, a_lat, a_alt)
+    shp = np.broadcast(a_lon, a_lat, a_alt).shape
+    P = np.array([np.broadcast_to(np.asarray(x, dtype=np.float64), shp).ravel() for x in p])
+    V = np.array([np.broadcast_to(np.asarray(x, dtype=np.float64), shp).ravel() for x in v])   # vz is a 0-d zero
+    rl, rt, ra = (np.asarray(a_lon, dtype=np.float64).ravel(), np.asarray(a_lat, dtype=np.float64).ravel(),
+                  np.asarray(a_alt, dtype=np.float64).ravel())
+    w = np.array([0.0, 0.0, geo.OMEGA_E])
+    tol = 2e-7 if kind != "f32" else 2e-6     # float32 results carry float32 rounding (C08); still far below the 2e-6 claim
+    bad = 0
+    for i in range(P.shape[1]):
+        ctx.count("eval_oracle_obs_array")
+        ref = geo.geodetic_to_eci(float(rl[i]), float(rt[i]), float(ra[i]), geo.gmst_ref(t))
+        case = _obs_array_case(kind, lons, lats, alts, t.isoformat())
+        case["index"] = i
+        if not np.linalg.norm(P[:, i] - ref) <= tol * np.linalg.norm(ref) + 1e-9:
+            ctx.violation("observer_position_array", case, list(P[:, i]), list(ref), site="astronomy.observer_position")
+            bad += 1
+        vref = np.cross(w, ref)
+        # float32 inputs are converted to radians in float32 (1e-7 rad): tolerances are relative to |r| and |w||r|
+        if not np.linalg.norm(V[:, i] - vref) <= (tol if kind == "f32" else 1e-9) * geo.OMEGA_E * np.linalg.norm(ref):
+            ctx.violation("observer_velocity_array", case, list(V[:, i]), list(vref), site="astronomy.observer_position")
+            bad += 1
+    return bad
+
+
+def _oracle_observer_arrays(ctx):
+    r = ctx.rng
+    for _ in range(ctx.size(40, 800)):
+        kind = r.choice(["f64", "f64", "f32", "i64", "f64_2d", "0d"])
+        n = 4
+        obs = [rand_observer(ctx) for _ in range(n)]
+        if kind == "i64":
+            obs = [(round(a), round(b), round(c)) for a, b, c in obs]
+        if kind == "f32":
+            obs = [(float(np.float32(a)), float(np.float32(b)), float(np.float32(min(c, 5.0)))) for a, b, c in obs]
+        t = dt.datetime(2000, 1, 1) + dt.timedelta(seconds=r.uniform(-20 * 365 * 86400, 40 * 365 * 86400))
+        ctx.bump("observer_array_kind", kind)
+        ctx.distinct(("obsarr", kind, obs[0]))
+        _check_observer_array(ctx, kind, [o[0] for o in obs], [o[1] for o in obs], [o[2] for o in obs], t)
+
+
+def _check_batch(ctx, a, b, tisos, nan_cols, o=None):
+    """geoloc.get_lonlatalt on a batch of positions, some of them NaN (pixels that missed the earth): every valid column must
+    equal the object-level conversion of that position alone (the module and object conversions agree exactly)."""
+    from pyorbital import geoloc, orbital
+    o = o or orbital.Orbital("x", line1=a, line2=b)
+    ts = [dt.datetime.fromisoformat(x) for x in tisos]
+    arr = np.array([np.datetime64(t) for t in ts])
+    pos, _ = o.get_position(arr, normalize=False)
+    pos = np.array(pos, dtype=np.float64)
+    for c in nan_cols:
+        pos[:, c] = np.nan
+    with np.errstate(all="ignore"):
+        m = geoloc.get_lonlatalt(pos, arr)
+    bad = 0
+    for i, t in enumerate(ts):
+        if i in nan_cols:
+            continue
+        ctx.count("eval_oracle_batch")
+        s = [float(x) for x in o.get_lonlatalt(t)]
+        got = [float(m[k][i]) for k in range(3)]
+        # same function, evaluated in a batch: agreement far below the 2e-6 round-trip claim (1e-9 deg, 1e-6 km)
+        if not (abs(got[0] - s[0]) <= 1e-9 and abs(got[1] - s[1]) <= 1e-9 and abs(got[2] - s[2]) <= 1e-6):
+            ctx.violation("module_vs_method_batch", {"line1": a, "line2": b, "utcs": tisos, "nan_cols": list(nan_cols), "index": i},
+                          got, s, site="geoloc.get_lonlatalt")
+            bad += 1
+    return bad
+
+
+def _oracle_batches(ctx):
+    r = ctx.rng
+    for (a, b, o) in orbitals(ctx, ctx.size(8, 60)):
+        ts = orbits.rand_times(ctx, o, 6)
+        for nan_cols in ([], [0], [2, 5], [r.randrange(6)]):
+            ctx.distinct(("batch", a, tuple(nan_cols)))
+            ctx.bump("batch_nan_columns", len(nan_cols))
+            _check_batch(ctx, a, b, [t.isoformat() for t in ts], nan_cols, o)
 
 
 def match_known(entry, v):
@@ -156,9 +249,26 @@ def match_known(entry, v):
 def replay(ctx, case):
     from pyorbital import orbital
     inp = case.get("input", case)
+    if "lons" in inp:
+        n0 = len(ctx.violations)
+        _check_observer_array(ctx, inp["kind"], inp["lons"], inp["lats"], inp["alts"], dt.datetime.fromisoformat(inp["utc"]))
+        print("observer array case", inp, "violations:", len(ctx.violations) - n0)
+        return 1 if len(ctx.violations) > n0 else 0
+    if "nan_cols" in inp:
+        bad = _check_batch(ctx, inp["line1"], inp["line2"], inp["utcs"], inp["nan_cols"])
+        print("batch case", inp, "violations:", bad)
+        return 1 if bad else 0
     if "line1" not in inp:
-        print("observer case", inp)
-        return 0
+        from pyorbital import astronomy
+        t = dt.datetime.fromisoformat(inp["utc"])
+        (p, v) = astronomy.observer_position(t, inp["lon"], inp["lat"], inp["alt"])
+        p = np.array([float(x) for x in p]); v = np.array([float(x) for x in v])
+        ref = geo.geodetic_to_eci(inp["lon"], inp["lat"], inp["alt"], geo.gmst_ref(t))
+        w = np.array([0.0, 0.0, geo.OMEGA_E])
+        bad = (not np.linalg.norm(p - ref) <= 2e-7 * np.linalg.norm(ref) + 1e-9) or \
+            (not np.linalg.norm(v - np.cross(w, p)) <= 1e-12 * (1 + np.linalg.norm(v)))
+        print("observer case", inp, "bad" if bad else "ok")
+        return 1 if bad else 0
     o = orbital.Orbital("x", line1=inp["line1"], line2=inp["line2"])
     t = dt.datetime.fromisoformat(inp["utc"])
     lon, lat, alt = [float(x) for x in o.get_lonlatalt(t)]
